@@ -69,6 +69,10 @@ def run(ctx):
                 elif x < 0.65 and min(lens) >= 2:
                     m = min(lens) - 1
                     kw["psi"] = (crng.randint(0, m), crng.randint(0, m), crng.randint(0, m), crng.randint(0, m))
+                if not equal and crng.random() < 0.35:
+                    # pairs whose length difference equals the limit exactly are still comparable
+                    kw["max_length_diff"] = crng.choice([1, 2, 3])
+                    ctx.count("collections_with_max_length_diff")
                 if nd:
                     kwp = dict(kw, use_ndim=True)
                 else:
